@@ -12,6 +12,22 @@ TB_A = ("Trusted: CPython operator dispatch on engine.forksym.Lin, z3 linear ari
         "Stubs: tqdm -> identity, stderr -> sink.")
 
 CHECKS = {
+    "C19": dict(
+        technique="z3 specification (integer position per vertex, Distinct, pos[u] < pos[v]) deciding membership, distinctness and completeness of toposort_all's output set",
+        text="For every digraph in the bound (every digraph on <= 4 vertices with self-loops in the thorough tier, seeded larger ones) z3 decides that "
+             "each ordering returned by toposort_all is a model of the declarative specification, that none is repeated, and that the specification "
+             "conjoined with the negation of all outputs is unsatisfiable; emptiness and toposort's answer are compared with satisfiability. The "
+             "precedence graph of the ordered solver is compared with the labelling oracle's root orders.",
+        design="5/C19", engine="forksym",
+        note="Trusted: z3 integer difference logic; the graph itself is enumerated (structural input), the output set is decided by the solver."),
+    "C20": dict(
+        technique="z3 SAT clade specification deciding the output sets of tree_from_triples / all_trees_from_triples / supertree; exhaustive enumeration for the disjoint-set structure",
+        text="For every binary tree on <= 5 leaves, every subset of the triples on <= 4 leaves and seeded sets on 5-6 leaves, z3 decides on a declarative "
+             "clade specification that all_trees_from_triples returns exactly the displaying binary trees (each a model, none repeated, none missing) "
+             "and that tree_from_triples / supertree return a displaying tree iff the specification is satisfiable. The disjoint-set structure is "
+             "enumerated exhaustively over union histories and over a single operation from every forest state (stated as enumeration).",
+        design="5/C20", engine="forksym",
+        note="Trusted: z3 Boolean / pseudo-Boolean solving, engine/oracles/clades.py; trees and triple sets are enumerated, output sets decided by the solver."),
     "C13": dict(
         technique="bounded symbolic execution (z3 LRA, symbolic node sizes) of layout.compute + tikz.render; census compared with independent event/loss oracle on every path",
         text="Layout and renderer run on symbolic node sizes in both orientations; every feasible ordering of their comparisons (including the "
